@@ -46,6 +46,9 @@ func crashOracle(w *World, i int, op Op, obs string) *Mismatch {
 	if obs != "ok" || len(writes) == 0 {
 		return nil
 	}
+	if last := writes[len(writes)-1]; isRootRecord(last.Data) {
+		w.Roots = append(w.Roots, append([]byte{}, last.Data...))
+	}
 	before := "" // state of the last flush all of whose writes completed, before this one
 	nobefore := len(w.Flushed) < 2
 	if !nobefore {
@@ -126,6 +129,11 @@ func crashOracle(w *World, i int, op Op, obs string) *Mismatch {
 			js = append(js, p)
 			js = append(js, last.Data[:len(last.Data)-1-r.Intn(11)])
 		}
+		// byte-exact copies of OLDER root records of this history (their recorded offset no longer
+		// matches the position they are copied to, so they are not self-consistent root records)
+		for q := len(w.Roots) - 2; q >= 0 && q >= len(w.Roots)-4; q-- {
+			js = append(js, w.Roots[q])
+		}
 		if de := int(w.IO.DurableEnd); de > 0 && len(w.PreImage) >= 24 {
 			// the previous root record (ends at the pre-image's durable end)
 			pre := w.PreImage
@@ -145,8 +153,8 @@ func crashOracle(w *World, i int, op Op, obs string) *Mismatch {
 		// boundary image: writes[0..k) applied completely
 		c03.Boundaries++
 		for ji, j := range junks(r) {
-			if complete && ji > 0 && ji != 1 && ji != 2 {
-				continue
+			if complete && ji >= 3 && ji <= 5 {
+				continue // copies of the new root record itself
 			}
 			if ji > 0 {
 				c03.Junk++
@@ -235,7 +243,7 @@ func crashOracle(w *World, i int, op Op, obs string) *Mismatch {
 }
 
 func checkC03(rep *Report, rng *Rng, tier string) {
-	n := 40
+	n := 28
 	if tier == "thorough" {
 		n = 600
 		c03AllCuts = true
